@@ -145,9 +145,15 @@ inline void encode(const Val& v, std::string& o, const Picker& pick = nullptr) {
 	}
 	case Val::Ext: {
 		size_t n = v.s.size();
-		if (n == 1 || n == 2 || n == 4 || n == 8 || n == 16) o.push_back(static_cast<char>(n == 1 ? 0xd4 : n == 2 ? 0xd5 : n == 4 ? 0xd6 : n == 8 ? 0xd7 : 0xd8));
-		else if (n <= 0xff) { o.push_back(static_cast<char>(0xc7)); putbe(o, n, 1); }
-		else if (n <= 0xffff) { o.push_back(static_cast<char>(0xc8)); putbe(o, n, 2); }
+		std::vector<int> alt;   // 0 = fixext, 1 = ext8, 2 = ext16, 3 = ext32
+		if (n == 1 || n == 2 || n == 4 || n == 8 || n == 16) alt.push_back(0);
+		if (n <= 0xff) alt.push_back(1);
+		if (n <= 0xffff) alt.push_back(2);
+		alt.push_back(3);
+		int f = alt[static_cast<size_t>(sel(static_cast<int>(alt.size()), "ext"))];
+		if (f == 0) o.push_back(static_cast<char>(n == 1 ? 0xd4 : n == 2 ? 0xd5 : n == 4 ? 0xd6 : n == 8 ? 0xd7 : 0xd8));
+		else if (f == 1) { o.push_back(static_cast<char>(0xc7)); putbe(o, n, 1); }
+		else if (f == 2) { o.push_back(static_cast<char>(0xc8)); putbe(o, n, 2); }
 		else { o.push_back(static_cast<char>(0xc9)); putbe(o, n, 4); }
 		o.push_back(static_cast<char>(v.ext_type)); o += v.s; break;
 	}
